@@ -28,4 +28,54 @@ PROPS = {
                      "StringScanner read forward to the same cursor, as the property words it",
                      "fault kinds: none exist at this surface (in-memory scanner, no I/O)"],
     ),
+    "C17": one(
+        60_000, 3_000_000,
+        anchor_files=["tokenizers/utilities/CharReferenceMap.go", "tokenizers/utilities/CharReferenceInterval.go"],
+        rule="A case is one history of 1-30 AddInterval / AddDefaultInterval / Clear / Lookup operations (endpoints and probes from "
+             "{0,'a',0xFF,0x100,0x101,0x2000,0xFFFE} and their neighbours, references A, B, none) on one of: a raw CharReferenceMap, "
+             "a tokenizer's character-state table, a word state's word characters, a whitespace state's whitespace characters; after "
+             "every operation all 19 probe characters are looked up. Non-trivial: at least 3 operations with at least 2 registrations/clears. "
+             "Distinct: hash of (target, operation list).",
+        state_measure="distinct vectors (model answer for each of the 19 probe characters, target)",
+        probes=["range_spans_boundary", "unregister_above_0x100", "word_split_checked"],
+        real=["utilities.CharReferenceMap", "tokenizers.AbstractTokenizer.Set/GetCharacterState", "generic.GenericWordState", "generic.GenericWhitespaceState"],
+        stub=[],
+        assumptions=["model: list of registrations, newest covering one wins, a nil reference un-registers",
+                     "fault kinds: none exist at this surface"],
+    ),
+    "C16": one(
+        60_000, 3_000_000,
+        anchor_files=["tokenizers/generic/SymbolNode.go", "tokenizers/generic/SymbolRootNode.go", "tokenizers/generic/GenericSymbolState.go"],
+        rule="A case is one history of 2-24 interleaved Add(symbol, own type) and read operations on one SymbolRootNode or GenericSymbolState: "
+             "symbols of length 1-3 over {<,=,>,!,lambda} biased to share prefixes, inputs that are a registered symbol, a symbol cut short, "
+             "a symbol plus a tail, or random; after every Add all symbols registered so far are read back. Non-trivial: at least 3 operations, "
+             "at least one Add and two reads. Distinct: hash of (target, operation list).",
+        state_measure="distinct (number of registered symbols, symbol read, previously read symbol) triples",
+        probes=["input_ends_inside_symbol", "unregistered_proper_prefix"],
+        real=["generic.SymbolRootNode", "generic.SymbolNode", "generic.GenericSymbolState", "io.StringScanner"],
+        stub=[],
+        assumptions=["model: map symbol -> type; a read returns the longest registered prefix, else the next single character as a plain symbol",
+                     "every symbol has one fixed type of its own (re-registering a symbol with another type is not generated)",
+                     "fault kinds: none exist at this surface (end of input inside a symbol is an input, not a fault)"],
+    ),
+    "C20": one(
+        60_000, 3_000_000,
+        anchor_files=["variants/Variant.go"],
+        rule="A case is one history of 2-24 operations over 4 variant handles and 2 caller-owned slices: construct from each host type "
+             "(int, int32, uint, uint32, int64, float32, float64, bool, string, time.Time, time.Duration, []*Variant, *Variant, nil, struct, []int, map), "
+             "typed setters, SetAsObject, SetAsArray followed by mutation of the caller's slice, SetByIndex within and past the end, SetLength, "
+             "Assign, Clone, Clear, Equals in both directions; after every operation every handle is read back (Type, typed accessor, Length, "
+             "GetByIndex, IsNull). Non-trivial: at least 3 operations including an in-place mutation (SetByIndex, SetLength or a change of a "
+             "caller's slice). Distinct: hash of the operation list.",
+        state_measure="distinct vectors (type, array length, number of alias edges) over the 4 handles",
+        probes=["caller_slice_mutated", "setbyindex_past_end", "clone_of_array", "equals_on_arrays", "mutate_with_alias_edges"] + ["host_" + h for h in
+               ["int", "int32", "uint", "uint32", "int64", "float32", "float64", "bool", "string", "time", "duration", "array", "variant", "nil", "struct", "slice", "map"]],
+        real=["variants.Variant"],
+        stub=[],
+        assumptions=["value model with explicit aliasing: only clones and list setters must be independent; Assign and construction from another "
+                     "variant may share a list (not asserted either way); a mutation of the original is not asserted to leave the clone alone, "
+                     "only the direction the property states",
+                     "array elements are always fresh variants, never other handles",
+                     "fault kinds: none exist at this surface"],
+    ),
 }
